@@ -941,9 +941,59 @@ class Gen:
         level = {"debug2": "debug"}.get(lv, lv)
         return ["log", level, args, lv]
 
+    def read_write_read(self):
+        """B.q is read, then a source that B.q's binding depends on is written (the binding runs inside the setter), then
+        B.q is read again in the same straight-line code: the second read must see the new value"""
+        r = self.r
+        cands = []
+        named = dict(self.named)
+        for o in self.objs:
+            if not o.get("id") or o["id"] not in named:
+                continue
+            for b in o["bindings"]:
+                if b.get("sub"):
+                    continue
+                pd = sc.find_prop(o["cls"], b["target"])
+                ty = TY_OF.get(pd["type"]) if pd else None
+                if ty not in ("int", "bool", "string"):
+                    continue
+                deps = []
+
+                def walk(x):
+                    if isinstance(x, dict):
+                        for v in x.values():
+                            walk(v)
+                    elif isinstance(x, list):
+                        if len(x) == 3 and x[0] == "prop" and isinstance(x[1], list) and len(x[1]) == 2 and x[1][0] == "obj" and x[1][1] in named:
+                            sp = sc.find_prop(named[x[1][1]], x[2])
+                            if sp and sp["layer"] == 0 and TY_OF.get(sp["type"]) in ("int", "bool", "string"):
+                                deps.append((x[1][1], x[2], TY_OF[sp["type"]]))
+                        for v in x:
+                            walk(v)
+                walk(b["body"])
+                for d in deps:
+                    cands.append((o["id"], b["target"], ty, d))
+        if not cands:
+            return None
+        bo, bq, ty, (ao, ap, aty) = r.choice(cands)
+        rd = ["prop", ["obj", bo], bq]
+        src = {"int": "intVal", "bool": "flag", "string": "text"}[ty]
+        sinks = [i for i, c in self.named if c in ("SimWidget", "SimPanel") and not (i == ao and src == ap)]
+        if not sinks:
+            return None
+        cur = ["prop", ["obj", ao], ap]
+        new = {"bool": ["un", "!", cur], "int": ["bin", "int", "+", cur, ["lit", "int", 1]], "string": ["bin", "string", "+", cur, ["lit", "string", "~"]]}[aty]
+        first = ["setprop", ["obj", r.choice(sinks)], src, rd] if r.chance(0.6) else ["log", "info", [rd], "info"]
+        last = ["setprop", ["obj", r.choice(sinks)], src, rd] if r.chance(0.7) else ["log", "warning", [rd], "warning"]
+        return [first, ["setprop", ["obj", ao], ap, new], last]
+
     def handler_stmts(self, n):
         r = self.r
         out = []
+        if self.notify_after is None and r.chance(0.3):
+            rwr = self.read_write_read()
+            if rwr:
+                out += rwr
         for _ in range(n):
             k = r.weighted([(6, "plain"), (2, "if"), (1, "switch"), (1, "let"), (1, "return")])
             if k == "plain":
